@@ -1,6 +1,7 @@
 package main
 
 import (
+	"regexp"
 	"fmt"
 	"go/ast"
 	"go/token"
@@ -537,7 +538,11 @@ func (t *Task) verifyFunc(fn *ssa.Function, con *FuncContract) {
 			t.assume(tTrue, env.evalBool(c.Expr, c.Src))
 			t.assumed["magnitude premise ("+c.Src+"): "+c.Expr] = true
 		case "use":
-			// lemma instances are also available from the start (arguments are read in the entry state)
+			// lemma instances are also available from the start (arguments are read in the entry state),
+			// unless they mention exit-state lets
+			if mentionsLet(con, c.Expr) {
+				continue
+			}
 			if f := t.lemmaInstance(env, c); f != "" {
 				t.assume(tTrue, f)
 			}
@@ -779,4 +784,22 @@ func (t *Task) lemmaInstance(env *ExprEnv, c Clause) string {
 	n.pkg = lem.Pkg
 	t.assumed["lemma "+label+" (machine-checked in the same run) instantiated at "+c.Src] = true
 	return n.evalBool(body, lem.Src)
+}
+
+var identRe = regexp.MustCompile(`[A-Za-z_][A-Za-z0-9_]*`)
+
+// mentionsLet: the expression names a 'let' of the contract (lets are evaluated at exit).
+func mentionsLet(con *FuncContract, expr string) bool {
+	lets := map[string]bool{}
+	for _, c := range con.Clauses {
+		if c.Kind == "let" {
+			lets[c.Name] = true
+		}
+	}
+	for _, id := range identRe.FindAllString(expr, -1) {
+		if lets[id] {
+			return true
+		}
+	}
+	return false
 }
